@@ -15,8 +15,19 @@ def observe(h):
             "notifications_without_time_changed": [(n[0], None if n[1] is None else float(n[1]).hex()) for n in h.nlog
                                                    if n[0] in ("START_REPLICATION_EVENT", "WARMUP_EVENT", "END_REPLICATION_EVENT")],
             "timeline": [r for r in h.timeline if r[0] in ("l", "d", "u", "sl")],
+            # (step() announces the time before every event, a run only when it changes: the first view per distinct time)
+            "time_changed_views": _first_per_time([r for r in h.timeline if r[0] == "sc"]),
             "stats": {k: stat_getters(st) for k, st in sorted(h.stats.items())},
             "clock": float(h.sim.simulator_time).hex(), "state": h.sim.run_state.name}
+
+
+def _first_per_time(recs):
+    out, seen = [], set()
+    for r in recs:
+        if (r[1], r[2]) not in seen:
+            seen.add((r[1], r[2]))
+            out.append(r)
+    return out
 
 
 _KEEP = []
@@ -96,6 +107,11 @@ def main():
                         lit = [float(t), "s"] if prog["clock"] == "duration" else (int(t) if prog["clock"] == "int" else float(t))
                         h.cmd("run_up_to", lit)
                         h.wait_quiescent(20)
+                for _ in range(cfg.get("steps", 0)):
+                    if h.sim.run_state.name == "ENDED":
+                        break
+                    h.cmd("step")
+                    h.wait_quiescent(20)
                 for k in cfg["pauses"]:
                     if h.sim.run_state.name == "ENDED":
                         break
@@ -130,6 +146,7 @@ def main():
                 res = {"ok": True, "digest": hashlib.sha256(canon.encode()).hexdigest(), "order_ok": order_ok,
                        "n_events": len(ob["trace"]), "n_deliveries": sum(len(v) for v in deliveries.values()),
                        "n_draws": sum(1 for r in h.timeline if r[0] == "d"), "parts": {k: hashlib.sha256(json.dumps(v, sort_keys=True).encode()).hexdigest()[:12] for k, v in ob.items()},
+                       "views": [[r[2], r[3]] for r in ob["time_changed_views"]][:2000],
                        "head": {"trace": ob["trace"][:40], "timeline": ob["timeline"][:40]}}
         finally:
             h.cleanup()
